@@ -71,13 +71,24 @@ package patch
 // were" is `err != nil ==> ghost(pbw) == old(ghost(pbw))`; "exactly the targeted element"
 // is: a success performs at most one such write, of the stated shape.
 
-// pure lookup (readers only): a found list position lies inside the list held by the field
+// choice unwrapping used by the lookup, named (pure)
+//@ func (e *Expression) unwrapOneof(obj) (res)
+//@   requires obj != nil
+//@   defines res == patchUnwrapS(obj)
+//@   assigns nothing
+
+// pure lookup (readers only): a found list position lies inside the list held by the field,
+// and the element found there IS (pointer identity after choice unwrapping) an item of the
+// collection - not merely an equal one
 //@ func (e *Expression) getFieldForCollection(root, collection) (field, idx, ok)
 //@   ensures ok ==> field != nil && idx >= 0 - 1
 //@   ensures !ok ==> field == nil
 //@   requires root != nil
 //@   ensures ok ==> field != nil && idx >= 0 - 1
 //@   ensures ok && idx >= 0 ==> idx < pbLen(pbListOf(pbGet(pbReflect(root), field)))
+//@   ensures ok ==> (idx >= 0) == (pbCard(field) == 3)
+//@   ensures ok && idx >= 0 ==> exists c int :: 0 <= c && c < len(collection) && patchUnwrapS(pbIface(pbMsg(pbAt(pbListOf(pbGet(pbReflect(root), field)), idx)))) == collection[c]
+//@   ensures ok && idx < 0 ==> exists c int :: 0 <= c && c < len(collection) && patchUnwrapS(pbIface(pbMsg(pbGet(pbReflect(root), field)))) == collection[c]
 //@   loop 2:
 //@     invariant 0 <= i
 //@   loop 3:
@@ -92,7 +103,7 @@ package patch
 //@   ensures err == nil ==> ghost(pbw) <= old(ghost(pbw)) + 1
 //@   ensures err == nil && ghost(pbw) == old(ghost(pbw)) + 1 ==> ghost(pbwKind) == 2 || ghost(pbwKind) == 1
 //@   ensures err == nil && ghost(pbw) == old(ghost(pbw)) + 1 && ghost(pbwKind) == 1 ==> pbIsList(ghost(pbwFld)) && pbDetL(pbListOf(ghost(pbwVal))) && dlLen(ghost(pbwVer), pbListOf(ghost(pbwVal))) == pbLen(pbListOf(pbGet(ghost(pbwMsg), ghost(pbwFld)))) - 1
-//@   ensures err == nil && ghost(pbw) == old(ghost(pbw)) + 1 && ghost(pbwKind) == 1 ==> exists d int :: 0 <= d && d < pbLen(pbListOf(pbGet(ghost(pbwMsg), ghost(pbwFld)))) && (forall k int :: 0 <= k && k < d ==> dlAt(ghost(pbwVer), pbListOf(ghost(pbwVal)), k) == pbAt(pbListOf(pbGet(ghost(pbwMsg), ghost(pbwFld))), k)) && (forall k int :: d <= k && k < pbLen(pbListOf(pbGet(ghost(pbwMsg), ghost(pbwFld)))) - 1 ==> dlAt(ghost(pbwVer), pbListOf(ghost(pbwVal)), k) == pbAt(pbListOf(pbGet(ghost(pbwMsg), ghost(pbwFld))), k + 1))
+//@   ensures err == nil && ghost(pbw) == old(ghost(pbw)) + 1 && ghost(pbwKind) == 1 ==> exists d int :: 0 <= d && d < pbLen(pbListOf(pbGet(ghost(pbwMsg), ghost(pbwFld)))) && patchUnwrapS(pbIface(pbMsg(pbAt(pbListOf(pbGet(ghost(pbwMsg), ghost(pbwFld))), d)))) == toDelete && (forall k int :: 0 <= k && k < d ==> dlAt(ghost(pbwVer), pbListOf(ghost(pbwVal)), k) == pbAt(pbListOf(pbGet(ghost(pbwMsg), ghost(pbwFld))), k)) && (forall k int :: d <= k && k < pbLen(pbListOf(pbGet(ghost(pbwMsg), ghost(pbwFld)))) - 1 ==> dlAt(ghost(pbwVer), pbListOf(ghost(pbwVal)), k) == pbAt(pbListOf(pbGet(ghost(pbwMsg), ghost(pbwFld))), k + 1))
 //@   loop 1:
 //@     invariant ghost(pbw) == old(ghost(pbw)) && ghost(pbw) == ghost(pbw0) && field == nil
 //@   loop 2:
@@ -138,6 +149,9 @@ package patch
 //@ func (e *Expression) getRefAndFieldForCollection(collection, toReplace) (ref, field, idx, err)
 //@   ensures err == nil ==> ref != nil && field != nil && !pbDetM(ref) && idx >= 0 - 1
 //@   ensures err == nil && idx >= 0 ==> idx < pbLen(pbListOf(pbGet(ref, field)))
+//@   ensures err == nil ==> (idx >= 0) == (pbCard(field) == 3)
+//@   ensures err == nil && idx >= 0 ==> patchUnwrapS(pbIface(pbMsg(pbAt(pbListOf(pbGet(ref, field)), idx)))) == toReplace
+//@   ensures err == nil && idx < 0 ==> patchUnwrapS(pbIface(pbMsg(pbGet(ref, field)))) == toReplace
 //@   assigns nothing
 //@ func (e *Expression) isSingletonOneof(msg) (res)
 //@   requires msg != nil
@@ -172,7 +186,8 @@ package patch
 //@   ensures err != nil ==> ghost(pbw) == old(ghost(pbw))
 //@   ensures err == nil ==> ghost(pbw) == old(ghost(pbw)) + 1 && ghost(pbwKind) == 1 && !pbDetM(ghost(pbwMsg))
 //@   ensures err == nil && pbIsList(ghost(pbwFld)) ==> pbDetL(pbListOf(ghost(pbwVal))) && dlLen(ghost(pbwVer), pbListOf(ghost(pbwVal))) == pbLen(pbListOf(pbGet(ghost(pbwMsg), ghost(pbwFld))))
-//@   ensures err == nil && pbIsList(ghost(pbwFld)) ==> exists d int :: forall k int :: 0 <= k && k < pbLen(pbListOf(pbGet(ghost(pbwMsg), ghost(pbwFld)))) && k != d ==> dlAt(ghost(pbwVer), pbListOf(ghost(pbwVal)), k) == pbAt(pbListOf(pbGet(ghost(pbwMsg), ghost(pbwFld))), k)
+//@   ensures err == nil && pbIsList(ghost(pbwFld)) ==> exists d int :: (d >= 0 ==> d < pbLen(pbListOf(pbGet(ghost(pbwMsg), ghost(pbwFld)))) && patchUnwrapS(pbIface(pbMsg(pbAt(pbListOf(pbGet(ghost(pbwMsg), ghost(pbwFld))), d)))) == toReplace) && (forall k int :: 0 <= k && k < pbLen(pbListOf(pbGet(ghost(pbwMsg), ghost(pbwFld)))) && k != d ==> dlAt(ghost(pbwVer), pbListOf(ghost(pbwVal)), k) == pbAt(pbListOf(pbGet(ghost(pbwMsg), ghost(pbwFld))), k))
+//@   ensures err == nil && !pbIsList(ghost(pbwFld)) && pbCard(ghost(pbwFld)) != 3 ==> patchUnwrapS(pbIface(pbMsg(pbGet(ghost(pbwMsg), ghost(pbwFld))))) == toReplace
 //@   assigns ghost:pbw, ghost:pbv, ghost:pbwKind, ghost:pbwMsg, ghost:pbwFld, ghost:pbwVal, ghost:pbwVer
 
 // evaluation of the compiled path: writes no protobuf state (the interface contract of
